@@ -17,7 +17,7 @@ RULE = ("trajectories of generated worlds (heterogeneous voltages, three-phase m
         "after each run every analysis function is recomputed in plain Python from the recorded rates, the scenario's voltages / "
         "phases / constraint dictionaries and the sessions; constraint subsets are requested in random order; non-trivial = "
         ">=2 distinct voltages and a subset query whose order differs from network order; distinct = history signature + query")
-PROBES = ["subset_reordered", "hetero_voltage", "nema_checked", "nema_zero_mean", "threshold_query", "unserved_session", "requery_after_update_constraint", "degenerate_subset_request",
+PROBES = ["concurrent_callers", "thread_switches", "subset_reordered", "hetero_voltage", "nema_checked", "nema_zero_mean", "threshold_query", "unserved_session", "requery_after_update_constraint", "degenerate_subset_request",
           "magnitudes_flag_true", "complex_return", "refused_add_then_corrected"]
 FAULT_DIMENSION = "none - post-run oracle on recorded trajectories (crash+rerun only diversifies the trajectories)"
 ASSUMPTIONS = ["constraint currents are compared by magnitude (either complex or real return passes)",
@@ -243,6 +243,49 @@ def check(sc):
                         if off_:
                             out.add("C18/datetimes", "entry %d is %s, expected %s" % (k, da[k], w))
                             break
+            # caller threads: several report generators read one finished simulation at the same time; the seed decides the
+            # interleaving of their steps inside the library (dsim/threads.py); each must get what it gets alone
+            rt = sub(sc["seed"], "threads")
+            if not out.viol and rt.random() < 0.2:
+                from ..threads import Interleaver
+
+                def canon(v):
+                    if isinstance(v, dict):
+                        return sorted((str(k_), canon(x_)) for k_, x_ in v.items())
+                    if isinstance(v, np.ndarray):
+                        return [repr(x_) for x_ in v.tolist()]
+                    if isinstance(v, (list, tuple)):
+                        return [canon(x_) for x_ in v]
+                    return repr(v)
+                names_ = list(sim.network.constraint_index)
+                menu = [("aggregate_current", lambda: analysis.aggregate_current(sim)),
+                        ("aggregate_power", lambda: analysis.aggregate_power(sim)),
+                        ("total_energy_delivered", lambda: analysis.total_energy_delivered(sim)),
+                        ("proportion_of_energy_delivered", lambda: analysis.proportion_of_energy_delivered(sim)),
+                        ("datetimes_array", lambda: analysis.datetimes_array(sim))]
+                if names_:
+                    sub_a = rt.sample(names_, rt.randint(1, len(names_)))
+                    sub_b = rt.sample(names_, rt.randint(1, len(names_)))
+                    menu += [("constraint_currents(magnitudes, %s)" % sub_a, lambda: analysis.constraint_currents(sim, return_magnitudes=True, constraint_ids=sub_a)),
+                             ("constraint_currents(complex, %s)" % sub_b, lambda: analysis.constraint_currents(sim, constraint_ids=sub_b)),
+                             ("constraint_currents(all)", lambda: analysis.constraint_currents(sim, return_magnitudes=True))]
+                jobs = rt.sample(menu, min(len(menu), rt.choice([2, 2, 3])))
+                alone = [canon(f_()) for _, f_ in jobs]
+                res_, info_ = Interleaver(sub(sc["seed"], "interleave"), sut.in_repo).run([f_ for _, f_ in jobs])
+                out.probe("concurrent_callers")
+                out.probe("thread_switches", info_["switches"])
+                for (nm_, _), (kind_, val_), alone_ in zip(jobs, res_, alone):
+                    if kind_ == "exc":
+                        from ..driver import classify_exception
+                        if classify_exception(val_) == "harness":
+                            raise val_
+                        out.add("C18/concurrent_callers", "threads reading one finished simulation: %s raised %s: %s (interleaving %s)"
+                                % (nm_, type(val_).__name__, str(val_)[:100], info_["order"][:30]))
+                        break
+                    if canon(val_) != alone_:
+                        out.add("C18/concurrent_callers", "threads reading one finished simulation (interleaving %s): %s returned %s, alone it returns %s"
+                                % (info_["order"][:30], nm_, str(canon(val_))[:150], str(alone_)[:150]))
+                        break
     except Exception as x:
         from ..driver import classify_exception
         if classify_exception(x) == "harness":
